@@ -19,6 +19,8 @@ ASSUMPTIONS = ["the statement's predicate evaluated in exact rationals", "inf, b
                "are recorded, not judged (the statement does not settle them)"]
 SUMMARY_KEYS = ["grid_tuples", "grid_accepted", "grid_rejected", "malformed", "scalings", "equiv_pairs"]
 EXHAUSTIVE = True
+EXHAUSTIVE_NOTE = ("the validation grid (3^12 tuples in quick, 4^12 in thorough) is enumerated completely; scaling, "
+                   "equivalence and malformed inputs are sampled")
 THOROUGH_SCALE = 1
 CRASH_IS_VIOLATION = False
 
